@@ -148,3 +148,46 @@ class MaskedIgnored(Lemma):
             (self.name + ": all masked => zero weight sum", hyps + [mk == 0 for mk in m], sw == 0),
             (self.name + ": non-negative weights, one unmasked corner with positive weight => positive weight sum", hyps + [wk >= 0 for wk in w] + [m[0] == 1, w[0] > 0], sw > 0),
         ]
+
+
+class MirrorClock(Lemma):
+    """Clock mirror: with mu(t) = 2S - t, the reversed conversions equal the forward ones on the mirrored axis."""
+
+    name = "mirror lemma for the clock"
+    properties = ("C10",)
+
+    def formula(self):
+        S, t, dt, n = z3.Ints("S t dt n")
+        mu = 2 * S - t
+        rev_t2s = (S - t) / dt
+        fwd_t2s_mirror = (mu - S) / dt
+        return [
+            (self.name + ": time2step_reversed(t) == time2step_forward(mirror(t))", [dt > 0], rev_t2s == fwd_t2s_mirror),
+            (self.name + ": reversed clock at step n is the mirror image of the forward clock", [dt > 0], S - n * dt == 2 * S - (S + n * dt)),
+        ]
+
+
+class NoDirectionDependence(Lemma):
+    """Tracker, State and the sampling kernels never read time_reversal (decided on the AST): given the mirrored
+    clock, forcing, release and output schedule the two runs execute the same step function on equal inputs."""
+
+    name = "tracker, state and sampling code do not depend on the time direction"
+    properties = ("C10",)
+
+    def formula(self):
+        import ast
+
+        from pyvc.extract import Repo
+
+        repo = Repo()
+        items = []
+        for modname in ("ladim.tracker", "ladim.state", "ladim.sample"):
+            mod = repo.module(modname)
+            uses = [n for n in ast.walk(mod.tree) if (isinstance(n, ast.Attribute) and n.attr == "time_reversal") or (isinstance(n, ast.Name) and n.id == "time_reversal")]
+            items.append((f"{self.name}: {modname} has no reference to time_reversal", [], z3.BoolVal(not uses)))
+        mod = repo.module("ladim.ROMS")
+        for fn in ("trilinear", "z2s", "z2s_kernel", "sample3D", "sample3DUV", "sdepth", "s_stretch"):
+            node = mod.funcs[fn]
+            uses = [n for n in ast.walk(node) if (isinstance(n, ast.Attribute) and n.attr == "time_reversal") or (isinstance(n, ast.Name) and n.id == "time_reversal")]
+            items.append((f"{self.name}: ROMS.{fn} has no reference to time_reversal", [], z3.BoolVal(not uses)))
+        return items
